@@ -445,7 +445,21 @@ def case_descriptor_beyond_select_range(env):
     return [s.fileno() >= 1024, a, b, c]
 
 
-CASES = [case_descriptor_beyond_select_range, case_refused, case_read_data_short, case_read_eof,
+def case_zero_length_reads(env):
+    s = env.connect()
+    f = s.makefile('rb', 0)
+    a = [outcome(lambda: s.recv(0)), outcome(lambda: f.read(0))]
+    env.server_send(b'abc')
+    b = [outcome(lambda: s.recv(0)), outcome(lambda: f.read(0)),
+         outcome(lambda: s.recv(2)), outcome(lambda: f.read(0)),
+         outcome(lambda: f.read(5))]
+    env.server_close()
+    c = [outcome(lambda: s.recv(0)), outcome(lambda: f.read(0)),
+         outcome(lambda: f.read(1))]
+    return a + b + c
+
+
+CASES = [case_zero_length_reads, case_descriptor_beyond_select_range, case_refused, case_read_data_short, case_read_eof,
          case_read_after_file_close, case_read_after_rst,
          case_rst_with_unread_data_read_first,
          case_rst_with_unread_data_send_first,
